@@ -1,4 +1,339 @@
+//! C18 — struct-of-arrays colour collections behave like a vector of colours.
+//!
+//! E2 operation-sequence search (DESIGN.md §3.1, §4 C18): for every colour type that has the
+//! struct-of-arrays impls, plain and wrapped in `Alpha`, the real container `Color<Vec<f32>>`
+//! is driven through every operation of the alphabet from every reachable state and compared
+//! step by step with a plain `Vec<Color<f32>>` subjected to the same operation.
+mod engine;
+mod fam;
+mod ops;
+
+use engine::*;
+use fam::*;
+use ops::*;
+use pv::{json, Collector, Ctx, Mode as RunMode, Tier, Value};
+
+trait Visit {
+    type Out;
+    fn go<G: Cfg>(self) -> Self::Out;
+}
+struct VBfs<'a>(&'a Ctx, &'a mut Collector);
+impl Visit for VBfs<'_> {
+    type Out = ();
+    fn go<G: Cfg>(self) {
+        run_bfs::<G>(self.0, self.1)
+    }
+}
+struct VUnmerged<'a>(&'a Ctx, &'a mut Collector);
+impl Visit for VUnmerged<'_> {
+    type Out = ();
+    fn go<G: Cfg>(self) {
+        run_unmerged::<G>(self.0, self.1)
+    }
+}
+struct VHue;
+impl Visit for VHue {
+    type Out = bool;
+    fn go<G: Cfg>(self) -> bool {
+        <G::F as Fam>::HUE.is_some()
+    }
+}
+struct VReplay<'a>(&'a mut Collector, &'a Value);
+impl Visit for VReplay<'_> {
+    type Out = ();
+    fn go<G: Cfg>(self) {
+        replay_case::<G>(self.0, self.1)
+    }
+}
+
+// one Cfg per macro expansion in palette: 26 colour types x {plain, Alpha}
+macro_rules! cfgs {
+    ($($p:ident $a:ident $fam:ident;)+) => {
+        $(impl_cfg!($p, $fam, false); impl_cfg!($a, WithAlpha<$fam>, true);)+
+        /// run the visitor on the configuration called `name`
+        fn dispatch<V: Visit>(name: &str, v: V) -> Option<V::Out> {
+            $(
+                if name == <$p as Cfg>::name() { return Some(v.go::<$p>()); }
+                if name == <$a as Cfg>::name() { return Some(v.go::<$a>()); }
+            )+
+            None
+        }
+        fn all_names() -> Vec<String> {
+            vec![$(<$p as Cfg>::name(), <$a as Cfg>::name()),+]
+        }
+    };
+}
+
+cfgs! {
+    PRgb ARgb FRgb;
+    PHsv AHsv FHsv;
+    PLab ALab FLab;
+    PLch ALch FLch;
+    PLuma ALuma FLuma;
+    POklab AOklab FOklab;
+    POkhsv AOkhsv FOkhsv;
+    PJch AJch FJch;
+    PHsl AHsl FHsl;
+    PHwb AHwb FHwb;
+    PLuv ALuv FLuv;
+    PLchuv ALchuv FLchuv;
+    PHsluv AHsluv FHsluv;
+    PXyz AXyz FXyz;
+    PYxy AYxy FYxy;
+    PLms ALms FLms;
+    POklch AOklch FOklch;
+    POkhsl AOkhsl FOkhsl;
+    POkhwb AOkhwb FOkhwb;
+    PUcsJab AUcsJab FUcsJab;
+    PUcsJmh AUcsJmh FUcsJmh;
+    PJmh AJmh FJmh;
+    PJsh AJsh FJsh;
+    PQch AQch FQch;
+    PQmh AQmh FQmh;
+    PQsh AQsh FQsh;
+}
+
+/// the eight types of the full search (each plain and with alpha = 16 configurations)
+const FULL: [&str; 8] = ["Rgb", "Hsv", "Lab", "Lch", "Luma", "Oklab", "Okhsv", "Cam16Jch"];
+fn is_full(name: &str) -> bool {
+    FULL.contains(&name.trim_end_matches("+alpha"))
+}
+
+fn run_bfs<G: Cfg>(ctx: &Ctx, total: &mut Collector) {
+    let name = G::name();
+    let full = is_full(&name);
+    let sub = if full { format!("bfs/{name}") } else { format!("basic/{name}") };
+    if !ctx.wants(&sub) {
+        return;
+    }
+    let p = if full {
+        Params { max_len: ctx.tier.pick(5, 6), ncol: ctx.tier.pick(3, 4), level: Level::Full, predict_model_panics: false }
+    } else {
+        Params { max_len: ctx.tier.pick(3, 4), ncol: ctx.tier.pick(2, 3), level: Level::Full, predict_model_panics: false }
+    };
+    let (c, visited) = bfs::<G>(&sub, &p, ctx.seed);
+    total.merge(c);
+    // closure reached: every sequence of <= max_len colours is reachable (push alone does it)
+    let want: usize = (0..=p.max_len).map(|l| p.ncol.pow(l as u32)).sum();
+    if visited.len() != want {
+        total.cap_hit(format!("{sub}: BFS closed on {} states, {} expected", visited.len(), want));
+    }
+    total.exhaustive(
+        &sub,
+        visited.len() == want,
+        &format!(
+            "merged BFS to closure: every sequence of <= {} colours from a {}-colour set ({} states) x the complete alphabet of that state (push, pop, clear, extend/collect of 0..=2 colours, with_capacity, get/get_mut(index) for index 0..=len+1 and usize::MAX, get/get_mut(range)+write and drain(range) for all 6 range forms with bounds 0..=len+1 (+ ..=MAX) x every consumption script (next^k, next_back^k, both alternations, then drop/count/forget), iter/iter_mut/into_iter over Vec, [T;N], &[T], &mut [T], Box<[T]> backings (13 IntoIterator impls) x every script ending in drop/count)",
+            p.max_len, p.ncol, want
+        ),
+    );
+}
+
+fn run_unmerged<G: Cfg>(ctx: &Ctx, total: &mut Collector) {
+    let name = G::name();
+    let sub = format!("unmerged/{name}");
+    if !is_full(&name) || !ctx.wants(&sub) {
+        return;
+    }
+    // quick: the four types that cover {no hue, hue} x {phantom parameter, none} x {1, 3 components}
+    if ctx.tier == Tier::Quick && !["Rgb", "Hsv", "Luma", "Cam16Jch"].contains(&name.trim_end_matches("+alpha")) {
+        return;
+    }
+    let depth = 3;
+    let p = Params { max_len: ctx.tier.pick(5, 6), ncol: ctx.tier.pick(2, 3), level: Level::Reduced, predict_model_panics: true };
+    let (c1, merged) = bfs::<G>(&sub, &p, ctx.seed);
+    let (c2, un) = unmerged::<G>(&sub, &p, depth);
+    total.merge(c1);
+    total.merge(c2);
+    cross_check::<G>(total, &p, depth, &merged, &un);
+    total.exhaustive(
+        &sub,
+        true,
+        &format!(
+            "all operation sequences of length <= {depth} from the empty container over the reduced alphabet ({} colours; drains with scripts drop/next/next_back/exhaust/alternate/forget; no merging, each sequence replayed from scratch), plus the merged BFS over the same alphabet; both must reach the same canonical states at the same depths",
+            p.ncol
+        ),
+    );
+}
+
+/// One defect in shared code (the generic `Iter` structs, a macro body) shows up in every
+/// iterator source and in every type expanded from that macro. Raw signatures are per type
+/// configuration and per method (`C18/ops/<type>/<method>/<class>`, class = panic | behaviour |
+/// lengths); two deterministic merges keep one defect at a handful of signatures without hiding
+/// a defect that is confined to one type or one impl:
+///  A. per (type, class): if drain and all 13 IntoIterator sources fail, they become
+///     `Iter(every source)`;
+///  B. per (method, class): if every explored type of a macro family (plain, hue, plain+alpha,
+///     hue+alpha; at least two explored) fails, they become `all <family> types`.
+fn collapse(total: &mut Collector, run: &[String]) {
+    use std::collections::BTreeMap;
+    fn merge_into(dst: &mut BTreeMap<String, pv::report::Viol>, sig: String, parts: Vec<(String, pv::report::Viol)>) {
+        let mut it = parts.into_iter();
+        let (s0, mut v) = it.next().unwrap();
+        let mut from = vec![s0];
+        for (s, w) in it {
+            v.count += w.count;
+            if w.magnitude > v.magnitude {
+                v.magnitude = w.magnitude;
+            }
+            from.push(s);
+        }
+        if from.len() > 1 {
+            if let Some(o) = v.first.as_object_mut() {
+                o.insert("merged_signatures".into(), json!(from));
+            }
+            v.worst = v.first.clone();
+        }
+        dst.insert(sig, v);
+    }
+    let parse = |sig: &str| -> Option<(String, String, String)> {
+        let rest = sig.strip_prefix("C18/ops/")?;
+        let (cfg, rest) = rest.split_once('/')?;
+        let (method, class) = rest.rsplit_once('/')?;
+        Some((cfg.to_string(), method.to_string(), class.to_string()))
+    };
+    let iter_methods: Vec<String> = std::iter::once("drain".to_string()).chain(SOURCES.iter().map(|(m, b)| format!("{}/{}", m.name(), b.name()))).collect();
+    // A
+    let mut out: BTreeMap<String, pv::report::Viol> = BTreeMap::new();
+    let mut groups: BTreeMap<(usize, String), Vec<(String, String, pv::report::Viol)>> = BTreeMap::new();
+    for (sig, v) in std::mem::take(&mut total.viol) {
+        match parse(&sig) {
+            Some((cfg, method, class)) if iter_methods.contains(&method) => {
+                let ci = run.iter().position(|n| *n == cfg).unwrap_or(usize::MAX);
+                groups.entry((ci, format!("{cfg}\u{0}{class}"))).or_default().push((method, sig, v));
+            }
+            _ => {
+                out.insert(sig, v);
+            }
+        }
+    }
+    for ((_, key), mut g) in groups {
+        let (cfg, class) = key.split_once('\u{0}').unwrap();
+        if g.len() == iter_methods.len() {
+            g.sort_by_key(|(m, _, _)| iter_methods.iter().position(|x| x == m));
+            merge_into(&mut out, format!("C18/ops/{cfg}/Iter(every source)/{class}"), g.into_iter().map(|(_, s, v)| (s, v)).collect());
+        } else {
+            for (_, s, v) in g {
+                out.insert(s, v);
+            }
+        }
+    }
+    // B
+    let family = |cfg: &str| -> Option<&'static str> {
+        let alpha = cfg.ends_with("+alpha");
+        let hue = dispatch(cfg, VHue)?;
+        Some(match (hue, alpha) {
+            (false, false) => "plain",
+            (true, false) => "hue",
+            (false, true) => "plain+alpha",
+            (true, true) => "hue+alpha",
+        })
+    };
+    let mut fin: BTreeMap<String, pv::report::Viol> = BTreeMap::new();
+    let mut groups: BTreeMap<(String, String, String), Vec<(usize, String, pv::report::Viol)>> = BTreeMap::new();
+    for (sig, v) in out {
+        match parse(&sig).and_then(|(cfg, m, c)| family(&cfg).map(|f| (cfg, f, m, c))) {
+            Some((cfg, fam, method, class)) => {
+                let ci = run.iter().position(|n| *n == cfg).unwrap_or(usize::MAX);
+                groups.entry((fam.to_string(), method, class)).or_default().push((ci, sig, v));
+            }
+            None => {
+                fin.insert(sig, v);
+            }
+        }
+    }
+    for ((fam, method, class), mut g) in groups {
+        let members = run.iter().filter(|n| family(n) == Some(fam.as_str())).count();
+        if g.len() == members && members >= 2 {
+            g.sort_by_key(|(ci, _, _)| *ci);
+            merge_into(&mut fin, format!("C18/ops/all {fam} types/{method}/{class}"), g.into_iter().map(|(_, s, v)| (s, v)).collect());
+        } else {
+            for (_, s, v) in g {
+                fin.insert(s, v);
+            }
+        }
+    }
+    total.viol = fin;
+}
+
+fn replay_case<G: Cfg>(c: &mut Collector, case: &Value) {
+    let ncol = case["ncol"].as_u64().unwrap_or(3) as usize;
+    let cols: Vec<Key> = (0..ncol).map(|j| colour(j, G::nc())).collect();
+    let contents: Vec<u8> = case["contents"].as_array().map(|a| a.iter().map(|x| x.as_u64().unwrap_or(0) as u8).collect()).unwrap_or_default();
+    let op = Op::from_json(&case["op"]).expect("replay: cannot parse op");
+    // initial contents: by the recorded path when there is one, else by pushing the contents
+    let path: Vec<Op> = match case["path"].as_array() {
+        Some(a) if case.get("path").is_some() => a.iter().map(|o| Op::from_json(o).expect("replay: cannot parse path op")).collect(),
+        _ => contents.iter().map(|c| Op::Push(*c)).collect(),
+    };
+    let (mut v, mut m) = rebuild::<G>(&path, &cols, false);
+    let start = state_of(&model_keys::<G>(&m), &cols);
+    println!("type config : {}", G::name());
+    println!("contents    : {:?} (colour j has components 4j+i+1.5)", start);
+    println!("operation   : {}", op.to_json());
+    let o = step::<G>(&mut v, &mut m, &op, &cols, false);
+    let nc = G::nc();
+    println!("observed    : {:?} panic={:?}", show_trace(&o.real, nc), o.real_panic);
+    println!("  components after: {:?}", o.bufs);
+    println!("expected    : {:?} panic={:?}", show_trace(&o.model, nc), o.model_panic);
+    println!("  colours after   : {:?}", o.expect.iter().map(|k| show_key(k, nc)).collect::<Vec<_>>());
+    if let Some((class, why)) = &o.mismatch {
+        println!("mismatch    : {why}");
+        c.violation(&signature::<G>(&op, class), 1.0, || case_json::<G>("ops", ncol, &contents, &path, &op, &o, true));
+    }
+}
+
+fn replay(ctx: &Ctx, c: &mut Collector, rep: &Value) {
+    let case = &rep["case"];
+    let cfg = case["cfg"].as_str().unwrap_or("").to_string();
+    if case["sub"] == "unmerged" {
+        // the reachable-set cross-check: re-run it for that configuration
+        if dispatch(&cfg, VUnmerged(ctx, c)).is_none() {
+            eprintln!("replay: unknown type config {cfg}");
+            std::process::exit(3);
+        }
+        c.viol.retain(|k, _| k.starts_with("C18/unmerged-vs-merged/"));
+        return;
+    }
+    if dispatch(&cfg, VReplay(c, case)).is_none() {
+        eprintln!("replay: unknown type config {cfg}");
+        std::process::exit(3);
+    }
+}
+
 fn main() {
-    eprintln!("C18: check not built yet");
-    std::process::exit(3);
+    pv::main_guard(real_main)
+}
+
+fn real_main() -> i32 {
+    if let Err(e) = selftest_resolve() {
+        eprintln!("MACHINERY-FAILURE: range oracle self-test: {e}");
+        return 3;
+    }
+    let (ctx, mode) = Ctx::from_args("C18");
+    if let RunMode::Replay(rep) = mode {
+        let mut c = Collector::new();
+        replay(&ctx, &mut c, &rep);
+        return ctx.finish_replay(c);
+    }
+    let mut total = Collector::new();
+    for name in all_names() {
+        let _ = dispatch(&name, VBfs(&ctx, &mut total));
+    }
+    for name in all_names() {
+        let _ = dispatch(&name, VUnmerged(&ctx, &mut total));
+    }
+    total.note("type_configs", json!(all_names()));
+    let run: Vec<String> = all_names().into_iter().filter(|n| ctx.wants(&format!("bfs/{n}")) || ctx.wants(&format!("basic/{n}")) || ctx.wants(&format!("unmerged/{n}"))).collect();
+    collapse(&mut total, &run);
+    ctx.finish(
+        total,
+        "model_checking",
+        "state = (type configuration, sequence of colours held); states are enumerated by merged breadth-first search from the empty container to closure under the length bound, the container being rebuilt by replaying the first-found operation path for every transition; every transition executes one operation of the alphabet on the real struct-of-arrays container and on a Vec of scalar colours and compares every observation (return values, Some/None, panics, len(), size_hint(), count(), every yielded item) and the resulting component collections read from the fields; non-trivial = states holding >= 2 colours (order matters)",
+        &[
+            "the canonical form (the colours held, in order) determines all futures: the component collections are Vec<f32>, whose only other state is capacity, which no operation of the alphabet can observe; the unmerged enumeration to depth 3 cross-checks this",
+            "std's Vec<C> is the specification (same toolchain for both sides)",
+            "after mem::forget of a Drain only the equal-length invariant and order-preserving prefix consistency are required (the statement does not cover forgotten iterators); on the pinned tree the containers match Vec exactly there too",
+            "harness built with debug-assertions off: the debug_assert!s inside palette's iterators are not active",
+        ],
+    )
 }
